@@ -152,10 +152,10 @@ theorem unpackRest_abs (v : Ver) (h : Header) (rb : Ring) (wf : rb.WF)
 /-! ### the body phase -/
 
 /-- metadata length announced by the header (v2 only) -/
-def mdLenOf (v : Ver) (h : Header) : Nat := match v with | .v1 => 0 | .v2 => h.metadataLength.toNat
+def s_mdLenOf (v : Ver) (h : Header) : Nat := match v with | .v1 => 0 | .v2 => h.metadataLength.toNat
 /-- bytes that must be queued after the header before the frame is complete -/
 def needLen (v : Ver) (h : Header) : Nat :=
-  h.bodyLength.toNat + mdLenOf v h + (if h.verify == 1 then trailerLen else 0)
+  h.bodyLength.toNat + s_mdLenOf v h + (if h.verify == 1 then trailerLen else 0)
 
 /-- decode the metadata block into the packet (v2 only) -/
 def withValues (v : Ver) (p : Packet) (md : Bytes) : Res Packet :=
@@ -168,8 +168,8 @@ def withValues (v : Ver) (p : Packet) (md : Bytes) : Res Packet :=
 
 /-- the body phase over the queue once the whole frame is queued (`needLen v h ≤ q.length`) -/
 def bodyFull (v : Ver) (gz : GzOracle) (codec : UInt8) (h : Header) (q : Bytes) : SRes × Option Header × Bytes :=
-  let md := q.take (mdLenOf v h)
-  let q1 := q.drop (mdLenOf v h)
+  let md := q.take (s_mdLenOf v h)
+  let q1 := q.drop (s_mdLenOf v h)
   let body := q1.take h.bodyLength.toNat
   let q2 := q1.drop h.bodyLength.toNat
   match withValues v { Header.toPacket h codec with body := body } md with
@@ -197,13 +197,13 @@ theorem unpackBody_abs (v : Ver) (gz : GzOracle) (codec : UInt8) (h : Header) (r
   have hla := length_abs rb wf
   by_cases hlt : rb.abs.length < needLen v h
   · have hlt' := hlt
-    simp only [needLen, mdLenOf] at hlt'
+    simp only [needLen, s_mdLenOf] at hlt'
     cases v <;> simp_all [unpackBody, bodyAbs]
   · have hge : needLen v h ≤ rb.abs.length := by omega
     simp only [needLen] at hge
     have htl : trailerLen = 24 := rfl
     cases v
-    · simp only [mdLenOf, Nat.add_zero] at hge
+    · simp only [s_mdLenOf, Nat.add_zero] at hge
       by_cases hv : (h.verify == 1) = true
       · simp only [hv, ↓reduceIte] at hge
         have hnl : ¬ rb.abs.length < h.bodyLength.toNat + trailerLen := by omega
@@ -213,26 +213,26 @@ theorem unpackBody_abs (v : Ver) (gz : GzOracle) (codec : UInt8) (h : Header) (r
         obtain ⟨rb4, hr4, wf4, ha4⟩ := read_abs _ wf3 16 (by rw [length_abs _ wf3, ha3, ha2]; simp only [List.length_drop]; omega)
         by_cases hg : (h.gzip == 1) = true
         · cases hd : Gzip.decompress gz (List.take h.bodyLength.toNat rb.abs) <;>
-            simp [unpackBody, bodyAbs, bodyFull, hla, hnl, needLen, mdLenOf, hr2, hv, hg, hd, withValues, peekUint64_abs, wf2, Gen.v1_NonceLength, Gen.v1_SignatureLength, hr4, wf4, ha4, ha3, ha2]
-        · simp [unpackBody, bodyAbs, bodyFull, hla, hnl, needLen, mdLenOf, hr2, hv, hg, withValues, peekUint64_abs, wf2, Gen.v1_NonceLength, Gen.v1_SignatureLength, hr4, wf4, ha4, ha3, ha2]
+            simp [unpackBody, bodyAbs, bodyFull, hla, hnl, needLen, s_mdLenOf, hr2, hv, hg, hd, withValues, peekUint64_abs, wf2, Gen.v1_NonceLength, Gen.v1_SignatureLength, hr4, wf4, ha4, ha3, ha2]
+        · simp [unpackBody, bodyAbs, bodyFull, hla, hnl, needLen, s_mdLenOf, hr2, hv, hg, withValues, peekUint64_abs, wf2, Gen.v1_NonceLength, Gen.v1_SignatureLength, hr4, wf4, ha4, ha3, ha2]
       · simp only [hv, Bool.false_eq_true, ↓reduceIte, Nat.add_zero] at hge
         have hnl : ¬ rb.abs.length < h.bodyLength.toNat := by omega
         obtain ⟨rb2, hr2, wf2, ha2⟩ := read_abs rb wf h.bodyLength.toNat (by omega)
         by_cases hg : (h.gzip == 1) = true
         · cases hd : Gzip.decompress gz (List.take h.bodyLength.toNat rb.abs) <;>
-            simp [unpackBody, bodyAbs, bodyFull, hla, hnl, needLen, mdLenOf, hr2, hv, hg, hd, withValues, wf2, ha2]
-        · simp [unpackBody, bodyAbs, bodyFull, hla, hnl, needLen, mdLenOf, hr2, hv, hg, withValues, wf2, ha2]
-    · simp only [mdLenOf] at hge
+            simp [unpackBody, bodyAbs, bodyFull, hla, hnl, needLen, s_mdLenOf, hr2, hv, hg, hd, withValues, wf2, ha2]
+        · simp [unpackBody, bodyAbs, bodyFull, hla, hnl, needLen, s_mdLenOf, hr2, hv, hg, withValues, wf2, ha2]
+    · simp only [s_mdLenOf] at hge
       have hnl' := hlt
-      simp only [needLen, mdLenOf, beq_iff_eq] at hnl'
+      simp only [needLen, s_mdLenOf, beq_iff_eq] at hnl'
       obtain ⟨rb1, hr1, wf1, ha1⟩ := read_abs rb wf h.metadataLength.toNat (by omega)
       obtain ⟨rb2, hr2, wf2, ha2⟩ := read_abs rb1 wf1 h.bodyLength.toNat (by
         rw [length_abs _ wf1, ha1]; simp only [List.length_drop]; omega)
       cases hrp : Metadata.rawPairs (List.take h.metadataLength.toNat rb.abs) with
       | err e =>
-        simp [unpackBody, bodyAbs, bodyFull, hla, hlt, hnl', mdLenOf, hr1, hr2, hrp, withValues, wf2, ha2, ha1]
+        simp [unpackBody, bodyAbs, bodyFull, hla, hlt, hnl', s_mdLenOf, hr1, hr2, hrp, withValues, wf2, ha2, ha1]
       | panic w =>
-        simp [unpackBody, bodyAbs, bodyFull, hla, hlt, hnl', mdLenOf, hr1, hr2, hrp, withValues, wf2, ha2, ha1]
+        simp [unpackBody, bodyAbs, bodyFull, hla, hlt, hnl', s_mdLenOf, hr1, hr2, hrp, withValues, wf2, ha2, ha1]
       | ok ps =>
         by_cases hv : (h.verify == 1) = true
         · simp only [hv, ↓reduceIte] at hge
@@ -243,14 +243,14 @@ theorem unpackBody_abs (v : Ver) (gz : GzOracle) (codec : UInt8) (h : Header) (r
             rw [length_abs _ wf3, ha3, ha2, ha1]; simp only [List.length_drop]; omega)
           by_cases hg : (h.gzip == 1) = true
           · cases hd : Gzip.decompress gz (List.take h.bodyLength.toNat (List.drop h.metadataLength.toNat rb.abs)) <;>
-              simp [unpackBody, bodyAbs, bodyFull, hla, hlt, hnl2, mdLenOf, hr1, hr2, hrp, hv, hg, hd, withValues, peekUint64_abs, wf2, Gen.v1_NonceLength, Gen.v1_SignatureLength, hr4, wf4, ha4, ha3, ha2, ha1]
-          · simp [unpackBody, bodyAbs, bodyFull, hla, hlt, hnl2, mdLenOf, hr1, hr2, hrp, hv, hg, withValues, peekUint64_abs, wf2, Gen.v1_NonceLength, Gen.v1_SignatureLength, hr4, wf4, ha4, ha3, ha2, ha1]
+              simp [unpackBody, bodyAbs, bodyFull, hla, hlt, hnl2, s_mdLenOf, hr1, hr2, hrp, hv, hg, hd, withValues, peekUint64_abs, wf2, Gen.v1_NonceLength, Gen.v1_SignatureLength, hr4, wf4, ha4, ha3, ha2, ha1]
+          · simp [unpackBody, bodyAbs, bodyFull, hla, hlt, hnl2, s_mdLenOf, hr1, hr2, hrp, hv, hg, withValues, peekUint64_abs, wf2, Gen.v1_NonceLength, Gen.v1_SignatureLength, hr4, wf4, ha4, ha3, ha2, ha1]
         · simp only [hv, Bool.false_eq_true, ↓reduceIte, Nat.add_zero] at hge
           have hnl2 : ¬ rb.abs.length < h.bodyLength.toNat + h.metadataLength.toNat := by omega
           by_cases hg : (h.gzip == 1) = true
           · cases hd : Gzip.decompress gz (List.take h.bodyLength.toNat (List.drop h.metadataLength.toNat rb.abs)) <;>
-              simp [unpackBody, bodyAbs, bodyFull, hla, hlt, hnl2, mdLenOf, hr1, hr2, hrp, hv, hg, hd, withValues, wf2, ha2, ha1]
-          · simp [unpackBody, bodyAbs, bodyFull, hla, hlt, hnl2, mdLenOf, hr1, hr2, hrp, hv, hg, withValues, wf2, ha2, ha1]
+              simp [unpackBody, bodyAbs, bodyFull, hla, hlt, hnl2, s_mdLenOf, hr1, hr2, hrp, hv, hg, hd, withValues, wf2, ha2, ha1]
+          · simp [unpackBody, bodyAbs, bodyFull, hla, hlt, hnl2, s_mdLenOf, hr1, hr2, hrp, hv, hg, withValues, wf2, ha2, ha1]
 
 /-! ### one whole call: ring = queue -/
 
@@ -486,7 +486,7 @@ theorem unpackAbs_cons (v : Ver) (gz : GzOracle) (codec : UInt8) (b : UInt8) (t 
     unpackAbs v gz codec none (b :: t) = tailAbs v gz codec (parse0 v {} b, t) := by
   simp [unpackAbs, Q.u8]
 
-theorem hdrLen_pos (v : Ver) (t : UInt8) : 0 < hdrLen v t - 1 := by
+theorem s_hdrLen_pos (v : Ver) (t : UInt8) : 0 < hdrLen v t - 1 := by
   unfold hdrLen; cases v <;> (repeat' split) <;> decide
 
 /-- KEY LEMMA: a call depends only on the undelivered bytes — resuming from a parked header is
@@ -501,7 +501,7 @@ theorem unpack_unread (v : Ver) (gz : GzOracle) (codec : UInt8) (pend : Option H
     rw [List.singleton_append, unpackAbs_cons]
     cases q with
     | nil =>
-      have := hdrLen_pos v (usType v b)
+      have := s_hdrLen_pos v (usType v b)
       simp [unpackAbs, parse0, tailAbs, hk, this]
     | cons a q => simp [unpackAbs, parse0]
   | header b w hk hw hn =>
@@ -633,23 +633,23 @@ theorem bodyFull_append (v : Ver) (gz : GzOracle) (codec : UInt8) (h : Header) (
       ((bodyFull v gz codec h r).1, (bodyFull v gz codec h r).2.1, (bodyFull v gz codec h r).2.2 ++ c) := by
   simp only [needLen] at hl
   have htl : trailerLen = 24 := rfl
-  have e1 := take_app r c (mdLenOf v h) (by omega)
-  have e2 := drop_app r c (mdLenOf v h) (by omega)
-  have e3 := take_app (r.drop (mdLenOf v h)) c h.bodyLength.toNat (by rw [List.length_drop]; omega)
-  have e4 := drop_app (r.drop (mdLenOf v h)) c h.bodyLength.toNat (by rw [List.length_drop]; omega)
+  have e1 := take_app r c (s_mdLenOf v h) (by omega)
+  have e2 := drop_app r c (s_mdLenOf v h) (by omega)
+  have e3 := take_app (r.drop (s_mdLenOf v h)) c h.bodyLength.toNat (by rw [List.length_drop]; omega)
+  have e4 := drop_app (r.drop (s_mdLenOf v h)) c h.bodyLength.toNat (by rw [List.length_drop]; omega)
   unfold bodyFull
   simp only [e1, e2, e3, e4]
-  cases hwv : withValues v { Header.toPacket h codec with body := (r.drop (mdLenOf v h)).take h.bodyLength.toNat } (r.take (mdLenOf v h)) with
+  cases hwv : withValues v { Header.toPacket h codec with body := (r.drop (s_mdLenOf v h)).take h.bodyLength.toNat } (r.take (s_mdLenOf v h)) with
   | err e => rfl
   | panic w => rfl
   | ok p =>
     simp only
     by_cases hv : (h.verify == 1) = true
     · simp only [hv, ↓reduceIte] at hl ⊢
-      have e5 := u64_append ((r.drop (mdLenOf v h)).drop h.bodyLength.toNat) c (by simp only [List.length_drop]; omega)
-      have e6 := drop_app ((r.drop (mdLenOf v h)).drop h.bodyLength.toNat) c 8 (by simp only [List.length_drop]; omega)
-      have e7 := take_app (((r.drop (mdLenOf v h)).drop h.bodyLength.toNat).drop 8) c 16 (by simp only [List.length_drop]; omega)
-      have e8 := drop_app (((r.drop (mdLenOf v h)).drop h.bodyLength.toNat).drop 8) c 16 (by simp only [List.length_drop]; omega)
+      have e5 := u64_append ((r.drop (s_mdLenOf v h)).drop h.bodyLength.toNat) c (by simp only [List.length_drop]; omega)
+      have e6 := drop_app ((r.drop (s_mdLenOf v h)).drop h.bodyLength.toNat) c 8 (by simp only [List.length_drop]; omega)
+      have e7 := take_app (((r.drop (s_mdLenOf v h)).drop h.bodyLength.toNat).drop 8) c 16 (by simp only [List.length_drop]; omega)
+      have e8 := drop_app (((r.drop (s_mdLenOf v h)).drop h.bodyLength.toNat).drop 8) c 16 (by simp only [List.length_drop]; omega)
       simp only [e5, e6, e7, e8]
       split
       · split <;> rfl
@@ -664,19 +664,19 @@ theorem bodyFull_rest (v : Ver) (gz : GzOracle) (codec : UInt8) (h : Header) (q 
     (hp : (bodyFull v gz codec h q).1 = .pkt k) : (bodyFull v gz codec h q).2.2 = q.drop (needLen v h) := by
   have htl : trailerLen = 24 := rfl
   unfold bodyFull at hp ⊢
-  cases hwv : withValues v { Header.toPacket h codec with body := (q.drop (mdLenOf v h)).take h.bodyLength.toNat } (q.take (mdLenOf v h)) with
+  cases hwv : withValues v { Header.toPacket h codec with body := (q.drop (s_mdLenOf v h)).take h.bodyLength.toNat } (q.take (s_mdLenOf v h)) with
   | err e => simp [hwv] at hp
   | panic w => simp [hwv] at hp
   | ok p =>
     simp only [hwv] at hp ⊢
     by_cases hv : (h.verify == 1) = true
-    · have : needLen v h = mdLenOf v h + h.bodyLength.toNat + 8 + 16 := by
+    · have : needLen v h = s_mdLenOf v h + h.bodyLength.toNat + 8 + 16 := by
         simp only [needLen, hv, ↓reduceIte, htl]; omega
       simp only [hv, ↓reduceIte, this, List.drop_drop] at hp ⊢
       split
       · split <;> first | rfl | simp_all
       · rfl
-    · have : needLen v h = mdLenOf v h + h.bodyLength.toNat := by
+    · have : needLen v h = s_mdLenOf v h + h.bodyLength.toNat := by
         simp only [needLen, hv, Bool.false_eq_true, ↓reduceIte]; omega
       simp only [hv, Bool.false_eq_true, ↓reduceIte, this, List.drop_drop] at hp ⊢
       split
@@ -684,7 +684,7 @@ theorem bodyFull_rest (v : Ver) (gz : GzOracle) (codec : UInt8) (h : Header) (q 
       · rfl
 
 /-- the header of the frame that starts with byte `b` followed by `t` (when complete) -/
-def hdrOf (v : Ver) (b : UInt8) (t : Bytes) : Header :=
+def s_hdrOf (v : Ver) (b : UInt8) (t : Bytes) : Header :=
   (restAbs v (parse0 v {} b) (t.take (hdrLen v (usType v b) - 1))).1
 
 theorem unpack_fresh_unknown (v : Ver) (gz : GzOracle) (codec : UInt8) (b : UInt8) (t : Bytes)
@@ -700,7 +700,7 @@ theorem unpack_fresh_short (v : Ver) (gz : GzOracle) (codec : UInt8) (b : UInt8)
 theorem unpack_fresh_full (v : Ver) (gz : GzOracle) (codec : UInt8) (b : UInt8) (t : Bytes)
     (hk : isUnknown (usType v b) = false) (hl : hdrLen v (usType v b) - 1 ≤ t.length) :
     unpackAbs v gz codec none (b :: t) =
-      bodyAbs v gz codec (hdrOf v b t) (t.drop (hdrLen v (usType v b) - 1)) := by
+      bodyAbs v gz codec (s_hdrOf v b t) (t.drop (hdrLen v (usType v b) - 1)) := by
   have hloc := restAbs_local v (parse0 v {} b) t hk hl
   simp only [parse0_type] at hloc
   rw [unpackAbs_cons]
@@ -709,8 +709,8 @@ theorem unpack_fresh_full (v : Ver) (gz : GzOracle) (codec : UInt8) (b : UInt8) 
   rw [hloc]; rfl
 
 theorem hdrOf_append (v : Ver) (b : UInt8) (t c : Bytes) (hl : hdrLen v (usType v b) - 1 ≤ t.length) :
-    hdrOf v b (t ++ c) = hdrOf v b t := by
-  unfold hdrOf; rw [take_app _ _ _ hl]
+    s_hdrOf v b (t ++ c) = s_hdrOf v b t := by
+  unfold s_hdrOf; rw [take_app _ _ _ hl]
 
 /-- appending bytes never changes a decision already made (packet or error) -/
 theorem unpack_append (v : Ver) (gz : GzOracle) (codec : UInt8) (u c : Bytes) (s : SRes) (p' : Option Header)
@@ -734,8 +734,8 @@ theorem unpack_append (v : Ver) (gz : GzOracle) (codec : UInt8) (u c : Bytes) (s
         rw [unpack_fresh_full v gz codec b t hk' hl'] at h
         rw [unpack_fresh_full v gz codec b _ hk' (by rw [List.length_append]; omega),
           hdrOf_append v b t c hl', drop_app _ _ _ hl']
-        have hge : needLen v (hdrOf v b t) ≤ (t.drop (hdrLen v (usType v b) - 1)).length := by
-          by_cases hlt : (t.drop (hdrLen v (usType v b) - 1)).length < needLen v (hdrOf v b t)
+        have hge : needLen v (s_hdrOf v b t) ≤ (t.drop (hdrLen v (usType v b) - 1)).length := by
+          by_cases hlt : (t.drop (hdrLen v (usType v b) - 1)).length < needLen v (s_hdrOf v b t)
           · simp only [bodyAbs, hlt, ↓reduceIte, Prod.mk.injEq] at h; exact absurd h.1.symm hs
           · omega
         rw [bodyAbs_ge _ _ _ _ _ hge] at h
@@ -748,10 +748,10 @@ theorem pushLen_le_hdrLen (v : Ver) (t : UInt8) : pushLen v ≤ hdrLen v t := by
 theorem unpack_pkt_consumed (v : Ver) (gz : GzOracle) (codec : UInt8) (u : Bytes) (k : Packet)
     (p' : Option Header) (r : Bytes) (h : unpackAbs v gz codec none u = (.pkt k, p', r)) :
     ∃ b t, u = b :: t ∧ isUnknown (usType v b) = false ∧ hdrLen v (usType v b) - 1 ≤ t.length ∧
-      needLen v (hdrOf v b t) ≤ (t.drop (hdrLen v (usType v b) - 1)).length ∧
-      bodyFull v gz codec (hdrOf v b t) (t.drop (hdrLen v (usType v b) - 1)) = (.pkt k, p', r) ∧
-      p' = none ∧ r = u.drop (hdrLen v (usType v b) + needLen v (hdrOf v b t)) ∧
-      hdrLen v (usType v b) + needLen v (hdrOf v b t) ≤ u.length := by
+      needLen v (s_hdrOf v b t) ≤ (t.drop (hdrLen v (usType v b) - 1)).length ∧
+      bodyFull v gz codec (s_hdrOf v b t) (t.drop (hdrLen v (usType v b) - 1)) = (.pkt k, p', r) ∧
+      p' = none ∧ r = u.drop (hdrLen v (usType v b) + needLen v (s_hdrOf v b t)) ∧
+      hdrLen v (usType v b) + needLen v (s_hdrOf v b t) ≤ u.length := by
   cases u with
   | nil => rw [unpackAbs_nil] at h; simp at h
   | cons b t =>
@@ -762,20 +762,20 @@ theorem unpack_pkt_consumed (v : Ver) (gz : GzOracle) (codec : UInt8) (u : Bytes
       · rw [unpack_fresh_short v gz codec b t hk' hl] at h; simp at h
       · have hl' : hdrLen v (usType v b) - 1 ≤ t.length := by omega
         rw [unpack_fresh_full v gz codec b t hk' hl'] at h
-        have hge : needLen v (hdrOf v b t) ≤ (t.drop (hdrLen v (usType v b) - 1)).length := by
-          by_cases hlt : (t.drop (hdrLen v (usType v b) - 1)).length < needLen v (hdrOf v b t)
+        have hge : needLen v (s_hdrOf v b t) ≤ (t.drop (hdrLen v (usType v b) - 1)).length := by
+          by_cases hlt : (t.drop (hdrLen v (usType v b) - 1)).length < needLen v (s_hdrOf v b t)
           · simp only [bodyAbs, hlt, ↓reduceIte, Prod.mk.injEq] at h; simp at h
           · omega
         rw [bodyAbs_ge _ _ _ _ _ hge] at h
         have hrest := bodyFull_rest v gz codec _ _ k (by rw [h])
-        have hpn := bodyFull_pend v gz codec (hdrOf v b t) (t.drop (hdrLen v (usType v b) - 1))
+        have hpn := bodyFull_pend v gz codec (s_hdrOf v b t) (t.drop (hdrLen v (usType v b) - 1))
         rw [h] at hrest hpn
         simp only at hrest hpn
-        have hpos := hdrLen_pos v (usType v b)
+        have hpos := s_hdrLen_pos v (usType v b)
         refine ⟨b, t, rfl, hk', hl', hge, h, hpn, ?_, ?_⟩
         · rw [hrest, List.drop_drop]
-          have : hdrLen v (usType v b) + needLen v (hdrOf v b t)
-              = (hdrLen v (usType v b) - 1 + needLen v (hdrOf v b t)) + 1 := by omega
+          have : hdrLen v (usType v b) + needLen v (s_hdrOf v b t)
+              = (hdrLen v (usType v b) - 1 + needLen v (s_hdrOf v b t)) + 1 := by omega
           rw [this, List.drop_succ_cons]
         · rw [List.length_drop] at hge; simp only [List.length_cons]; omega
 
@@ -1154,7 +1154,7 @@ theorem unpack_pkt_progress (v : Ver) (gz : GzOracle) (codec : UInt8) (pend : Op
     obtain ⟨b', t, hu, _, _, _, _, _, hr, hN⟩ := unpack_pkt_consumed v gz codec _ k p' r h'
     simp only [List.singleton_append, List.cons.injEq] at hu
     obtain ⟨rfl, rfl⟩ := hu
-    have := hdrLen_pos v (usType v b)
+    have := s_hdrLen_pos v (usType v b)
     rw [hr, List.length_drop]
     simp only [List.singleton_append, List.length_cons] at hN ⊢
     omega
@@ -1197,49 +1197,49 @@ def coreHdr (h : Header) : Header := { h with beginUnpack := false, isUnpacked :
 
 theorem unpackBytes_hdr (v : Ver) (b : UInt8) (t : Bytes) (hk : isUnknown (usType v b) = false)
     (hl : hdrLen v (usType v b) - 1 ≤ t.length) :
-    Header.unpackBytes v (b :: t) = .ok (coreHdr (hdrOf v b t), t.drop (hdrLen v (usType v b) - 1)) := by
+    Header.unpackBytes v (b :: t) = .ok (coreHdr (s_hdrOf v b t), t.drop (hdrLen v (usType v b) - 1)) := by
   rcases type_cases _ hk with ht | ht | ht <;> cases v
   · rw [ht, remain_req] at hl; simp only at hl
     iterate 10 decons hl
     have hlen : ∀ n : Nat, ¬ (n + 1 + 1 + 1 + 1 + 1 + 1 + 1 + 1 + 1 + 1 < 10) := by intro n; omega
     simp [-Res.ok_bind, ok_bind', Header.unpackBytes, ub_us_type, ub_us_verify, ub_us_gzip, ub_us_reserve, ub_us_bodyLen, ht, hlen,
       show isUnknown tReq = false by decide, show tReq ≠ tResp by decide, tReq_ne_tResp,
-      Bytes.idx, Bytes.slice, Bytes.sliceFrom, remain_req, hdrOf, coreHdr, parse0,
+      Bytes.idx, Bytes.slice, Bytes.sliceFrom, remain_req, s_hdrOf, coreHdr, parse0,
       restAbs, stCmd, stRid, stTimeout, stStatus, stMdLen, stLen, Q.u8, Q.u16, Q.u32, b3]
   · rw [ht, remain_req] at hl; simp only at hl
     iterate 12 decons hl
     have hlen : ∀ n : Nat, ¬ (n + 1 + 1 + 1 + 1 + 1 + 1 + 1 + 1 + 1 + 1 + 1 + 1 < 12) := by intro n; omega
     simp [-Res.ok_bind, ok_bind', Header.unpackBytes, ub_us_type, ub_us_verify, ub_us_gzip, ub_us_reserve, ub_us_bodyLen, ht, hlen,
       show isUnknown tReq = false by decide, show tReq ≠ tResp by decide, tReq_ne_tResp,
-      Bytes.idx, Bytes.slice, Bytes.sliceFrom, remain_req, hdrOf, coreHdr, parse0,
+      Bytes.idx, Bytes.slice, Bytes.sliceFrom, remain_req, s_hdrOf, coreHdr, parse0,
       restAbs, stCmd, stRid, stTimeout, stStatus, stMdLen, stLen, Q.u8, Q.u16, Q.u32, b3]
   · rw [ht, remain_resp] at hl; simp only at hl
     iterate 9 decons hl
     have hlen : ∀ n : Nat, ¬ (n + 1 + 1 + 1 + 1 + 1 + 1 + 1 + 1 + 1 < 9) := by intro n; omega
     simp [-Res.ok_bind, ok_bind', Header.unpackBytes, ub_us_type, ub_us_verify, ub_us_gzip, ub_us_reserve, ub_us_bodyLen, ht, hlen,
       show isUnknown tResp = false by decide, show tResp ≠ tReq by decide, tResp_ne_tReq,
-      Bytes.idx, Bytes.slice, Bytes.sliceFrom, remain_resp, hdrOf, coreHdr, parse0,
+      Bytes.idx, Bytes.slice, Bytes.sliceFrom, remain_resp, s_hdrOf, coreHdr, parse0,
       restAbs, stCmd, stRid, stTimeout, stStatus, stMdLen, stLen, Q.u8, Q.u16, Q.u32, b3]
   · rw [ht, remain_resp] at hl; simp only at hl
     iterate 11 decons hl
     have hlen : ∀ n : Nat, ¬ (n + 1 + 1 + 1 + 1 + 1 + 1 + 1 + 1 + 1 + 1 + 1 < 11) := by intro n; omega
     simp [-Res.ok_bind, ok_bind', Header.unpackBytes, ub_us_type, ub_us_verify, ub_us_gzip, ub_us_reserve, ub_us_bodyLen, ht, hlen,
       show isUnknown tResp = false by decide, show tResp ≠ tReq by decide, tResp_ne_tReq,
-      Bytes.idx, Bytes.slice, Bytes.sliceFrom, remain_resp, hdrOf, coreHdr, parse0,
+      Bytes.idx, Bytes.slice, Bytes.sliceFrom, remain_resp, s_hdrOf, coreHdr, parse0,
       restAbs, stCmd, stRid, stTimeout, stStatus, stMdLen, stLen, Q.u8, Q.u16, Q.u32, b3]
   · rw [ht, remain_push] at hl; simp only at hl
     iterate 4 decons hl
     have hlen : ∀ n : Nat, ¬ (n + 1 + 1 + 1 + 1 < 4) := by intro n; omega
     simp [-Res.ok_bind, ok_bind', Header.unpackBytes, ub_us_type, ub_us_verify, ub_us_gzip, ub_us_reserve, ub_us_bodyLen, ht, hlen,
       show isUnknown tPush = false by decide, show tPush ≠ tReq by decide, show tPush ≠ tResp by decide, tPush_ne_tReq, tPush_ne_tResp,
-      Bytes.idx, Bytes.slice, Bytes.sliceFrom, remain_push, hdrOf, coreHdr, parse0,
+      Bytes.idx, Bytes.slice, Bytes.sliceFrom, remain_push, s_hdrOf, coreHdr, parse0,
       restAbs, stCmd, stRid, stTimeout, stStatus, stMdLen, stLen, Q.u8, Q.u16, Q.u32, b3]
   · rw [ht, remain_push] at hl; simp only at hl
     iterate 6 decons hl
     have hlen : ∀ n : Nat, ¬ (n + 1 + 1 + 1 + 1 + 1 + 1 < 6) := by intro n; omega
     simp [-Res.ok_bind, ok_bind', Header.unpackBytes, ub_us_type, ub_us_verify, ub_us_gzip, ub_us_reserve, ub_us_bodyLen, ht, hlen,
       show isUnknown tPush = false by decide, show tPush ≠ tReq by decide, show tPush ≠ tResp by decide, tPush_ne_tReq, tPush_ne_tResp,
-      Bytes.idx, Bytes.slice, Bytes.sliceFrom, remain_push, hdrOf, coreHdr, parse0,
+      Bytes.idx, Bytes.slice, Bytes.sliceFrom, remain_push, s_hdrOf, coreHdr, parse0,
       restAbs, stCmd, stRid, stTimeout, stStatus, stMdLen, stLen, Q.u8, Q.u16, Q.u32, b3]
 
 theorem coreHdr_toPacket (h : Header) (codec : UInt8) : Header.toPacket (coreHdr h) codec = Header.toPacket h codec := rfl
@@ -1278,7 +1278,7 @@ theorem unpackBytes_body_v1 (gz : GzOracle) (codec : UInt8) (bs : Bytes) (h : He
   have hgz : (coreHdr h).gzip = h.gzip := rfl
   simp only [needLen] at hlen
   have hs00 : Bytes.slice data 0 0 = .ok [] := by simp [Bytes.slice]
-  simp only [mdLenOf, Nat.add_zero] at hlen
+  simp only [s_mdLenOf, Nat.add_zero] at hlen
   have hs0 : Bytes.slice data 0 h.bodyLength.toNat = .ok (data.take h.bodyLength.toNat) := by
     rw [Bytes.slice_ok _ _ _ (by omega) (by split at hlen <;> omega)]; rfl
   by_cases hv : h.verify = 1
@@ -1288,18 +1288,18 @@ theorem unpackBytes_body_v1 (gz : GzOracle) (codec : UInt8) (bs : Bytes) (h : He
     have hnl2 : ¬ data.length < h.bodyLength.toNat + trailerLen := by omega
     by_cases hg : h.gzip = 1
     · cases hd : Gzip.decompress gz (data.take h.bodyLength.toNat) <;>
-        simp [unpackBytes, hh, ok_bind', hbl, hmd, hvf, hgz, coreHdr_toPacket, bodyFull, withValues, mdLenOf,
+        simp [unpackBytes, hh, ok_bind', hbl, hmd, hvf, hgz, coreHdr_toPacket, bodyFull, withValues, s_mdLenOf,
           hv, hg, hd, hnl, hnl2, hs0, hs00, t1, t2, t3, Gen.v1_NonceLength, sresToRes]
-    · simp [unpackBytes, hh, ok_bind', hbl, hmd, hvf, hgz, coreHdr_toPacket, bodyFull, withValues, mdLenOf,
+    · simp [unpackBytes, hh, ok_bind', hbl, hmd, hvf, hgz, coreHdr_toPacket, bodyFull, withValues, s_mdLenOf,
           hv, hg, hnl, hnl2, hs0, hs00, t1, t2, t3, Gen.v1_NonceLength, sresToRes]
   · have hv' : (h.verify == 1) = false := by simpa using hv
     simp only [hv', Bool.false_eq_true, ↓reduceIte, Nat.add_zero] at hlen
     have hnl : ¬ data.length < h.bodyLength.toNat := by omega
     by_cases hg : h.gzip = 1
     · cases hd : Gzip.decompress gz (data.take h.bodyLength.toNat) <;>
-        simp [unpackBytes, hh, ok_bind', hbl, hmd, hvf, hgz, coreHdr_toPacket, bodyFull, withValues, mdLenOf,
+        simp [unpackBytes, hh, ok_bind', hbl, hmd, hvf, hgz, coreHdr_toPacket, bodyFull, withValues, s_mdLenOf,
           hv, hg, hd, hnl, hs0, hs00, sresToRes]
-    · simp [unpackBytes, hh, ok_bind', hbl, hmd, hvf, hgz, coreHdr_toPacket, bodyFull, withValues, mdLenOf,
+    · simp [unpackBytes, hh, ok_bind', hbl, hmd, hvf, hgz, coreHdr_toPacket, bodyFull, withValues, s_mdLenOf,
           hv, hg, hnl, hs0, hs00, sresToRes]
 
 
@@ -1313,7 +1313,7 @@ theorem unpackBytes_body_v2 (gz : GzOracle) (codec : UInt8) (bs : Bytes) (h : He
   have hgz : (coreHdr h).gzip = h.gzip := rfl
   simp only [needLen] at hlen
   have hs00 : Bytes.slice data 0 0 = .ok [] := by simp [Bytes.slice]
-  simp only [mdLenOf] at hlen
+  simp only [s_mdLenOf] at hlen
   have hml : h.metadataLength.toNat ≤ data.length := by omega
   have hs0 : Bytes.slice data 0 h.metadataLength.toNat = .ok (data.take h.metadataLength.toNat) := by
     rw [Bytes.slice_ok _ _ _ (by omega) hml]; rfl
@@ -1327,10 +1327,10 @@ theorem unpackBytes_body_v2 (gz : GzOracle) (codec : UInt8) (bs : Bytes) (h : He
     rw [List.drop_drop, Nat.add_comm]
   cases hrp : Metadata.rawPairs (data.take h.metadataLength.toNat) with
   | err e1 =>
-    simp [unpackBytes, hh, ok_bind', hbl, hmd, hvf, hgz, coreHdr_toPacket, bodyFull, withValues, mdLenOf,
+    simp [unpackBytes, hh, ok_bind', hbl, hmd, hvf, hgz, coreHdr_toPacket, bodyFull, withValues, s_mdLenOf,
       hnl, hs0, hs1, hrp, sresToRes]
   | panic w =>
-    simp [unpackBytes, hh, ok_bind', hbl, hmd, hvf, hgz, coreHdr_toPacket, bodyFull, withValues, mdLenOf,
+    simp [unpackBytes, hh, ok_bind', hbl, hmd, hvf, hgz, coreHdr_toPacket, bodyFull, withValues, s_mdLenOf,
       hnl, hs0, hs1, hrp, sresToRes]
   | ok ps =>
     by_cases hv : h.verify = 1
@@ -1342,16 +1342,16 @@ theorem unpackBytes_body_v2 (gz : GzOracle) (codec : UInt8) (bs : Bytes) (h : He
       have hnl2 : ¬ data.length < h.bodyLength.toNat + h.metadataLength.toNat + trailerLen := by omega
       by_cases hg : h.gzip = 1
       · cases hd : Gzip.decompress gz ((data.drop h.metadataLength.toNat).take h.bodyLength.toNat) <;>
-          simp [unpackBytes, hh, ok_bind', hbl, hmd, hvf, hgz, coreHdr_toPacket, bodyFull, withValues, mdLenOf,
+          simp [unpackBytes, hh, ok_bind', hbl, hmd, hvf, hgz, coreHdr_toPacket, bodyFull, withValues, s_mdLenOf,
             hv, hg, hd, hnl, hnl2, hs0, hs1, hrp, t1, t2, t3, Gen.v1_NonceLength, sresToRes]
-      · simp [unpackBytes, hh, ok_bind', hbl, hmd, hvf, hgz, coreHdr_toPacket, bodyFull, withValues, mdLenOf,
+      · simp [unpackBytes, hh, ok_bind', hbl, hmd, hvf, hgz, coreHdr_toPacket, bodyFull, withValues, s_mdLenOf,
             hv, hg, hnl, hnl2, hs0, hs1, hrp, t1, t2, t3, Gen.v1_NonceLength, sresToRes]
     · have hv' : (h.verify == 1) = false := by simpa using hv
       by_cases hg : h.gzip = 1
       · cases hd : Gzip.decompress gz ((data.drop h.metadataLength.toNat).take h.bodyLength.toNat) <;>
-          simp [unpackBytes, hh, ok_bind', hbl, hmd, hvf, hgz, coreHdr_toPacket, bodyFull, withValues, mdLenOf,
+          simp [unpackBytes, hh, ok_bind', hbl, hmd, hvf, hgz, coreHdr_toPacket, bodyFull, withValues, s_mdLenOf,
             hv, hg, hd, hnl, hs0, hs1, hrp, sresToRes]
-      · simp [unpackBytes, hh, ok_bind', hbl, hmd, hvf, hgz, coreHdr_toPacket, bodyFull, withValues, mdLenOf,
+      · simp [unpackBytes, hh, ok_bind', hbl, hmd, hvf, hgz, coreHdr_toPacket, bodyFull, withValues, s_mdLenOf,
             hv, hg, hnl, hs0, hs1, hrp, sresToRes]
 
 
@@ -1370,30 +1370,30 @@ theorem stream_matches_oneshot_abs (v : Ver) (gz : GzOracle) (codec : UInt8) (u 
     (p' : Option Header) (r : Bytes) (h : unpackAbs v gz codec none u = (.pkt k, p', r)) :
     ∃ n, n ≤ u.length ∧ r = u.drop n ∧ unpackBytes v gz codec (u.take n) = .ok k := by
   obtain ⟨b, t, rfl, hk, hl, hge, hbf, _, hr, hN⟩ := unpack_pkt_consumed v gz codec u k p' r h
-  have hpos := hdrLen_pos v (usType v b)
-  refine ⟨hdrLen v (usType v b) + needLen v (hdrOf v b t), hN, hr, ?_⟩
-  have hN' : hdrLen v (usType v b) + needLen v (hdrOf v b t)
-      = (hdrLen v (usType v b) - 1 + needLen v (hdrOf v b t)) + 1 := by omega
+  have hpos := s_hdrLen_pos v (usType v b)
+  refine ⟨hdrLen v (usType v b) + needLen v (s_hdrOf v b t), hN, hr, ?_⟩
+  have hN' : hdrLen v (usType v b) + needLen v (s_hdrOf v b t)
+      = (hdrLen v (usType v b) - 1 + needLen v (s_hdrOf v b t)) + 1 := by omega
   rw [hN', List.take_succ_cons]
   rw [List.length_drop] at hge
   have hlt' : hdrLen v (usType v b) - 1 ≤
-      (t.take (hdrLen v (usType v b) - 1 + needLen v (hdrOf v b t))).length := by
+      (t.take (hdrLen v (usType v b) - 1 + needLen v (s_hdrOf v b t))).length := by
     rw [List.length_take]; omega
-  have hhd : hdrOf v b (t.take (hdrLen v (usType v b) - 1 + needLen v (hdrOf v b t))) = hdrOf v b t := by
-    unfold hdrOf; rw [List.take_take]; congr 3; omega
+  have hhd : s_hdrOf v b (t.take (hdrLen v (usType v b) - 1 + needLen v (s_hdrOf v b t))) = s_hdrOf v b t := by
+    unfold s_hdrOf; rw [List.take_take]; congr 3; omega
   have hh := unpackBytes_hdr v b _ hk hlt'
   rw [hhd] at hh
-  have hdata : (t.take (hdrLen v (usType v b) - 1 + needLen v (hdrOf v b t))).drop (hdrLen v (usType v b) - 1)
-      = (t.drop (hdrLen v (usType v b) - 1)).take (needLen v (hdrOf v b t)) := by
+  have hdata : (t.take (hdrLen v (usType v b) - 1 + needLen v (s_hdrOf v b t))).drop (hdrLen v (usType v b) - 1)
+      = (t.drop (hdrLen v (usType v b) - 1)).take (needLen v (s_hdrOf v b t)) := by
     rw [List.drop_take]; congr 1; omega
   rw [hdata] at hh
-  have hlen : ((t.drop (hdrLen v (usType v b) - 1)).take (needLen v (hdrOf v b t))).length
-      = needLen v (hdrOf v b t) := by
+  have hlen : ((t.drop (hdrLen v (usType v b) - 1)).take (needLen v (s_hdrOf v b t))).length
+      = needLen v (s_hdrOf v b t) := by
     rw [List.length_take, List.length_drop]; omega
   rw [unpackBytes_body v gz codec _ _ _ hh hlen]
-  have happ := bodyFull_append v gz codec (hdrOf v b t)
-    ((t.drop (hdrLen v (usType v b) - 1)).take (needLen v (hdrOf v b t)))
-    ((t.drop (hdrLen v (usType v b) - 1)).drop (needLen v (hdrOf v b t))) (by rw [hlen]; exact Nat.le_refl _)
+  have happ := bodyFull_append v gz codec (s_hdrOf v b t)
+    ((t.drop (hdrLen v (usType v b) - 1)).take (needLen v (s_hdrOf v b t)))
+    ((t.drop (hdrLen v (usType v b) - 1)).drop (needLen v (s_hdrOf v b t))) (by rw [hlen]; exact Nat.le_refl _)
   rw [List.take_append_drop, hbf] at happ
   simp only [Prod.mk.injEq] at happ
   rw [← happ.1]; rfl
@@ -1445,13 +1445,13 @@ theorem rd24_be24 (a b c : UInt8) : be24 (rd24 a b c) = [a, b, c] := by
       simp only [UInt32.toNat_toUInt8]
       rw [h]; omega
 
-theorem packB0_tab : ∀ b : Fin 256,
+theorem s_packB0_tab : ∀ b : Fin 256,
     Gen.v1PackB0 (Gen.v1UsType (UInt8.ofFin b)) (Gen.v1UsVerify (UInt8.ofFin b)) (Gen.v1UsGzip (UInt8.ofFin b))
       (Gen.v1UsReserve (UInt8.ofFin b)) = UInt8.ofFin b := by
   decide +kernel
 
 theorem packB0_us (v : Ver) (b : UInt8) : packB0 v (usType v b) (usVerify v b) (usGzip v b) (usReserve v b) = b := by
-  have h0 := packB0_tab b.toFin
+  have h0 := s_packB0_tab b.toFin
   have h1 : Gen.v1PackB0 (Gen.v1UsType b) (Gen.v1UsVerify b) (Gen.v1UsGzip b) (Gen.v1UsReserve b) = b := by
     simpa using h0
   cases v <;> exact h1
@@ -1462,7 +1462,7 @@ theorem packLen_be24 (v : Ver) (x : UInt32) : packLen v x = be24 x := by cases v
 
 /-- the bytes already taken off the stream into the parked header: the header re-encoded by the
 codec's own `Header.Pack` (nothing before byte 0, byte 0 alone until the header is complete) -/
-def hdrBytes (v : Ver) : Option Header → Bytes
+def s_hdrBytes (v : Ver) : Option Header → Bytes
   | none => []
   | some h =>
     if !h.beginUnpack then []
@@ -1472,7 +1472,7 @@ def hdrBytes (v : Ver) : Option Header → Bytes
       | _ => []
 
 /-- the undelivered stream: parked header bytes, then the queue -/
-def unread (v : Ver) (pend : Option Header) (q : Bytes) : Bytes := hdrBytes v pend ++ q
+def unread (v : Ver) (pend : Option Header) (q : Bytes) : Bytes := s_hdrBytes v pend ++ q
 
 /-- `Header.Pack` inverts the streaming header decoder on complete headers (all three types, both versions) -/
 theorem pack_restAbs (v : Ver) (b : UInt8) (w : Bytes) (hk : isUnknown (usType v b) = false)
@@ -1548,17 +1548,17 @@ theorem restAbs_beginUnpack (v : Ver) (h : Header) (t : Bytes) : (restAbs v h t)
 
 /-- the bytes a parked header stands for are its own re-encoding -/
 theorem parked_hdrBytes (v : Ver) (pend : Option Header) (u : Bytes) (hp : Parked v pend u) :
-    hdrBytes v pend = u := by
+    s_hdrBytes v pend = u := by
   cases hp with
   | fresh => rfl
   | idle => rfl
-  | byte0 b hk => simp [hdrBytes, parse0, packB0_us]
+  | byte0 b hk => simp [s_hdrBytes, parse0, packB0_us]
   | header b w hk hw hn =>
     have hpk := pack_restAbs v b w hk hw
     have hbu : (restAbs v (parse0 v {} b) w).1.beginUnpack = true := by rw [restAbs_beginUnpack]; rfl
-    simp only [hdrBytes, hbu, restAbs_isUnpacked, Bool.not_true, Bool.false_eq_true, ↓reduceIte, hpk]
+    simp only [s_hdrBytes, hbu, restAbs_isUnpacked, Bool.not_true, Bool.false_eq_true, ↓reduceIte, hpk]
 
-theorem parked_iff (v : Ver) (pend : Option Header) : PendOK v pend ↔ Parked v pend (hdrBytes v pend) := by
+theorem parked_iff (v : Ver) (pend : Option Header) : PendOK v pend ↔ Parked v pend (s_hdrBytes v pend) := by
   constructor
   · rintro ⟨u, hu⟩; rw [parked_hdrBytes v pend u hu]; exact hu
   · exact fun h => ⟨_, h⟩
@@ -1588,7 +1588,7 @@ theorem unpack_pkt_unread (v : Ver) (gz : GzOracle) (codec : UInt8) (pend : Opti
   have := unpack_pkt_progress v gz codec pend _ q k _ _ ((parked_iff v pend).mp hp)
     (Prod.ext hk (Prod.ext rfl rfl))
   rw [this.2.2]
-  simpa [unread, hdrBytes] using this.2.1
+  simpa [unread, s_hdrBytes] using this.2.1
 
 end Frame
 end OAP
